@@ -209,6 +209,38 @@ def add_m3(ctx, kind, name, area, n, params=None, shards=None):
     return st
 
 
+def add_gen_exec_validate(ctx, kind, name, module, extra, cfg=GEN_CFG, min_cases=1, timeout=3600, shards=None):
+    """TLC enumerates INPUTS (no prediction is possible without modelling the algorithm); the harness
+    executes them against the real code and records the observations; TLC judges every recorded event
+    with the area's trace module"""
+    res = vlib.tlc(ctx, name + ".gen", module, cfg, extra, 1, (), None, timeout)
+    cases = os.path.join(res["dir"], "cases.ndjson")
+    if not os.path.exists(cases):
+        raise Broken("%s: TLC emitted no inputs" % name)
+    inputs = vlib.read_ndjson(cases)
+    if len(inputs) < min_cases:
+        raise Broken("%s: only %d inputs generated (expected >= %d)" % (name, len(inputs), min_cases))
+    shards = shards or min(vlib.MAX_SHARDS, max(1, len(inputs) // 1500))
+    files = []
+    for k in range(shards):
+        part = inputs[k::shards]
+        inp, outp = os.path.join(res["dir"], "in.%d" % k), os.path.join(res["dir"], "ev.%d" % k)
+        vlib.write_ndjson(inp, part)
+        vlib.harness(["exec", "-in", inp, "-out", outp])
+        files.append(outp)
+    ctx.cov["evaluations"] += len(inputs)
+    ctx.cov["distinct_nontrivial"] += len(set(json.dumps(i, sort_keys=True) for i in inputs))
+    ctx.sample(dict(stage=name, kind="tlc-generated input executed by the real code", event=vlib.read_ndjson(files[0])[0]))
+    results = vlib.tlc_validate(ctx, name, KINDS[kind]["module"], files)
+    for f, bad in results:
+        if not bad:
+            continue
+        events = vlib.read_ndjson(f)
+        for b in bad:
+            ctx.candidates.append(dict(kind=kind, stage=name, event=events[b["event"] - 1]))
+    return len(inputs)
+
+
 def confirm_events(ctx, kind, cands):
     spec = KINDS[kind]
     events, seen = [], set()
@@ -494,6 +526,97 @@ def run_C20(ctx):
             c["event"] = dict(c["event"], table=table)
     tfile = os.path.join(ctx.work, "histories.gen", "cases.ndjson")
     add_m3(ctx, "store", "random", "store", 60 if q else 1500, params={"table": tfile}, shards=(2 if q else 6))
+    return vlib.finish(ctx, confirm_all)
+
+
+def describe_partial(ev, obs, entry):
+    w = entry.get("witness")
+    pe = ev["penv"]
+    parts = "P=%s A=%s R=%s C=%s" % tuple(pretty.sv(pe[k]) for k in ("p", "a", "r", "c"))
+    if not isinstance(obs, dict) or "keep" not in obs:
+        o = "panic/invalid %s" % json.dumps(obs)[:200]
+    elif obs["keep"]:
+        o = "kept, residual %s" % pretty.sp(obs["residual"]) if "effect" in obs.get("residual", {}) else "kept, residual %s" % obs.get("residual")
+    else:
+        o = "dropped"
+    wit = "panic" if w == "panic" else ", ".join("%s:=%s" % (k, pretty.sv(v)) for k, v in sorted(w.items())) if isinstance(w, dict) else str(w)
+    return "partial %s under %s [store %s] => %s; unsound for %s completion(s), e.g. %s" % (
+        pretty.sp(ev["policy"]), parts, envhash(pe["store"]), o, entry.get("n"), wit)
+
+
+KINDS["partial"] = dict(module="Trace_Partial", shrink=None, describe=describe_partial)
+
+
+@prop("C06")
+def run_C06(ctx):
+    ctx.rule = ("Inputs: MC_PartialGen enumerates every policy of the expression universe (Depth1; thorough adds Depth2) x 13 "
+                "partial-environment shapes (unknown principal/action/resource/context, unknowns nested in context records and "
+                "sets, two unknowns, ignored parts, fully concrete). The harness runs the real x/exp/eval.PartialPolicy and "
+                "records keep/residual. Trace_Partial then evaluates, with the TLA+ evaluator, the original and the residual under "
+                "EVERY completion of the unknowns drawn from candidate universes (entities for request positions, whole records "
+                "for the context, values of several kinds for nested unknowns) and checks the soundness predicate of "
+                "spec/Partial.tla. Random policies / environments are checked the same way. distinct = distinct inputs.")
+    ctx.assumptions = ["completions are drawn from finite candidate universes (Partial!EntCands, CtxCands, ValCands)",
+                       "an embedded partial-error node is interpreted as 'evaluation fails'",
+                       "a forbid policy with an ignored part is not constrained by the statement"]
+    q = ctx.quick
+    consts = "CONSTANT UseDepth2 = %s\nCONSTANT Stride = %d\n" % ("FALSE" if q else "TRUE", 3 if q else 1)
+    add_gen_exec_validate(ctx, "partial", "universe", "MC_PartialGen", ["mc/MC_PartialGen.tla"], cfg=GEN_CFG + consts,
+                          min_cases=1000, timeout=7200)
+    add_m3(ctx, "partial", "random", "partial", 2000 if q else 40000)
+    return vlib.finish(ctx, confirm_all)
+
+
+def describe_batch(ev, obs, entry):
+    t = ev["template"]
+    parts = "P=%s A=%s R=%s C=%s" % tuple(pretty.sv(t[k]) for k in ("p", "a", "r", "c"))
+    vs = "; ".join("%s in [%s]" % (v["key"], ", ".join(pretty.sv(x) for x in (v.get("values") or []))) for v in (ev.get("vars") or []))
+    pols = "; ".join("%s: %s" % (p["id"], pretty.sp(p["policy"])) for p in (ev.get("policies") or []))
+    if not isinstance(obs, dict) or "calls" not in obs:
+        o = "panic/invalid %s" % json.dumps(obs)[:300]
+    else:
+        calls = obs["calls"]
+        o = "ret=%s%s, %d callback(s): %s" % (obs.get("ret"), (" (" + obs.get("msg", "")[:80] + ")") if obs.get("msg") else "", len(calls), " | ".join(
+            "{%s} -> P=%s A=%s R=%s C=%s : %s %s%s" % (
+                ", ".join("%s=%s" % (k, pretty.sv(v)) for k, v in sorted(c["values"].items())),
+                pretty.sv(c["request"]["p"]), pretty.sv(c["request"]["a"]), pretty.sv(c["request"]["r"]), pretty.sv(c["request"]["c"]),
+                c["decision"], c["reasons"], "" if c.get("cross") else " (ordinary authorizer disagrees)") for c in calls[:6]))
+    return "batch template %s vars {%s} fault %s policies [%s] [store %s] => %s" % (
+        parts, vs, json.dumps(ev.get("fault")), pols, envhash(t["store"]), o)
+
+
+def shrink_batch(ev, entry=None):
+    out = []
+    if (ev.get("fault") or {}).get("kind", "none") != "none":
+        out.append(dict(ev, fault={"kind": "none", "at": 1}))
+    pols = ev.get("policies") or []
+    if len(pols) > 1:
+        out += [dict(ev, policies=[p], fault={"kind": "none", "at": 1}) for p in pols]
+    return out
+
+
+KINDS["batch"] = dict(module="Trace_Batch", shrink=shrink_batch, describe=describe_batch)
+
+
+@prop("C05")
+def run_C05(ctx):
+    ctx.rule = ("M1: MC_Batch model-checks the enumeration algorithm of doBatch (variables sorted by list length, one recursion "
+                "level per variable, state saved/restored, context check on entry, error propagation) for every combination of "
+                "list lengths and every fault plan: the callback log is the Cartesian product, or exactly k distinct elements of "
+                "it with the right error. M2: MC_BatchGen emits concrete batch requests (variables in each request part, nested "
+                "in records and sets, one variable under several keys, duplicates, empty lists, unbound/unused variables) x "
+                "policy sets x every fault position with the expected multiset of callbacks (substitution, request, decision, "
+                "reasons per Batch.tla); the harness runs batch.Authorize with a copying / failing / cancelling callback and also "
+                "authorizes every Result.Request with cedar.Authorize. M3: random templates and policies validated by "
+                "Trace_Batch (Batch!Acceptable). distinct = distinct cases/events.")
+    ctx.assumptions = ["callback order is free (compared as multisets)", "Diagnostic.Errors of batch results is not compared",
+                       "values of the wrong kind for a request part are not generated (the statement does not cover them)"]
+    q = ctx.quick
+    vlib.tlc_check(ctx, "m1.enumeration", "MC_Batch",
+                   mc_cfg(["Correct", "Complete", "Restored"], ["Terminates"], {"MaxVars": 2 if q else 3, "MaxList": 3 if q else 3}, spec="Spec"),
+                   ["mc/MC_Batch.tla"])
+    add_m2(ctx, "batch", "requests", "MC_BatchGen", ["mc/MC_BatchGen.tla"], cfg=GEN_CFG, min_cases=300, timeout=7200)
+    add_m3(ctx, "batch", "random", "batch", 1000 if q else 30000)
     return vlib.finish(ctx, confirm_all)
 
 
